@@ -820,40 +820,52 @@ def _enum(maxlen):
 
 # --------------------------------------------------------------------------- Hypothesis
 
-def _s_ops(nested):
+def _s_ops(kind):
+  """kind: 'nested' (inside callbacks / GoingUp handlers), 'pre' (before goUp), 'post' (after it), 'free'."""
   name = st.integers(0, 4)
-  deps = st.lists(st.sampled_from([0, 0, 1, 1, 2, 3, 4, -1]), min_size=0, max_size=3)
-  reg = st.fixed_dictionaries({"op": st.just("reg"), "n": st.sampled_from([0, 0, 1, 1, 2, 3, 4]), "how": st.sampled_from(REG_HOW[:2] * 2 + REG_HOW)})
+  some = st.lists(st.sampled_from([0, 0, 0, 1, 1, 1, 2, 3, 4, -1]), min_size=1, max_size=3)
+  deps = some
+  reg = st.fixed_dictionaries({"op": st.just("reg"), "n": st.sampled_from([0, 0, 0, 1, 1, 1, 2, 3, 4]), "how": st.sampled_from(REG_HOW[:2] * 2 + REG_HOW)})
   cwr = st.fixed_dictionaries({"op": st.just("cwr"), "w": st.integers(0, 4), "deps": deps,
                                "form": st.sampled_from(["list", "list", "set", "set", "str", "tuple"]),
-                               "arg": st.sampled_from(["id", "id", "kw", "none"])})
+                               "arg": st.sampled_from(["id", "kw", "none", "none"])})
+  cwr0 = st.fixed_dictionaries({"op": st.just("cwr"), "w": st.integers(0, 4), "deps": st.just([]),
+                                "form": st.sampled_from(["set"] * 14 + ["list", "tuple"]),
+                                "arg": st.sampled_from(["id", "none"])})
   ltd = st.fixed_dictionaries({"op": st.just("ltd"), "k": st.integers(0, 2), "extra": st.lists(name, max_size=2),
                                "attrs": st.sampled_from(ATTR_MODES), "extra_form": st.sampled_from(["list", "none", "str"])})
   rel = st.fixed_dictionaries({"op": st.just("rel"), "k": st.integers(0, 3)})
-  if nested:
-    return st.one_of(reg, reg, cwr, rel, ltd)
+  if kind == "nested":
+    return st.one_of(reg, reg, reg, reg, cwr, cwr, rel, rel, ltd, ltd, cwr0)
   gup = st.fixed_dictionaries({"op": st.just("gup"), "g": st.integers(0, 2), "p": st.sampled_from([0, 0, 5, -3])})
   goup = st.just({"op": "goup"})
   quit_ = st.just({"op": "quit"})
-  return st.one_of(reg, reg, reg, cwr, cwr, cwr, ltd, ltd, gup, gup, goup, goup, rel, rel, quit_)
+  if kind == "pre":
+    return st.one_of(reg, reg, reg, reg, cwr, cwr, cwr, cwr, ltd, ltd, ltd, gup, gup, gup, quit_, cwr0)
+  if kind == "post":
+    return st.one_of(rel, rel, rel, rel, reg, reg, reg, reg, cwr, cwr, cwr, ltd, ltd, quit_, cwr0)
+  return st.one_of(reg, reg, reg, reg, cwr, cwr, cwr, cwr, ltd, ltd, gup, gup, goup, goup, rel, rel, quit_, cwr0)
 
 
 def _strategy(tier):
-  maxops = 12 if tier == "quick" else 20
-  waiter = st.fixed_dictionaries({"ops": st.lists(_s_ops(True), max_size=3), "raise": st.sampled_from([False, False, True])})
+  n = 6 if tier == "quick" else 10
+  waiter = st.fixed_dictionaries({"ops": st.lists(_s_ops("nested"), max_size=3), "raise": st.sampled_from([False, False, False, True])})
   sink = st.fixed_dictionaries({
-    "h": st.lists(st.tuples(st.integers(0, 4), st.integers(0, 1)).map(list), min_size=0, max_size=3),
+    "h": st.lists(st.tuples(st.sampled_from([0, 0, 1, 1, 2, 3, 4]), st.integers(0, 1)).map(list), min_size=0, max_size=3),
     "met": st.sampled_from(["ok", "ok", "ok", "raise", "none"]),
   })
   gup = st.fixed_dictionaries({
-    "take": st.integers(0, 2), "rel": st.lists(st.booleans(), min_size=2, max_size=2),
-    "ops": st.lists(_s_ops(True), max_size=2),
+    "take": st.sampled_from([0, 1, 1, 2]), "rel": st.lists(st.sampled_from([False, False, True]), min_size=2, max_size=2),
+    "ops": st.lists(_s_ops("nested"), max_size=2),
   })
+  phased = st.tuples(st.lists(_s_ops("pre"), min_size=3, max_size=n), st.lists(_s_ops("post"), min_size=2, max_size=n)).map(
+      lambda t: t[0] + [{"op": "goup"}] + t[1])
+  free = st.lists(_s_ops("free"), min_size=5, max_size=2 * n)
   return st.fixed_dictionaries({
     "waiters": st.lists(waiter, min_size=1, max_size=5),
     "sinks": st.lists(sink, min_size=1, max_size=3),
     "gups": st.lists(gup, min_size=1, max_size=3),
-    "ops": st.lists(_s_ops(False), min_size=2, max_size=maxops),
+    "ops": st.one_of(phased, phased, phased, free),
   })
 
 
@@ -861,7 +873,7 @@ def plan(tier):
   if tier == "quick":
     return [
       Enum("permutations", lambda: _enum(4), shards=16),
-      Hyp("histories", lambda: _strategy(tier), examples=3000, shards=16),
+      Hyp("histories", lambda: _strategy(tier), examples=2400, shards=16),
     ]
   return [
     Enum("permutations", lambda: _enum(5), shards=16),
